@@ -13,7 +13,7 @@ mod shims;
 
 pub mod driver;
 
-pub use shims::{channel, fs, shim, sync, thread, walk, walker_threads};
+pub use shims::{channel, fs, shim, shim_crossbeam, sync, thread, walk, walker_threads};
 
 /// Entry point of a simulator build (hook H4). `run_once` is the CLI's own dispatch, taking the
 /// argument vector explicitly; it returns the error chain rendered as text on failure.
